@@ -300,7 +300,15 @@ class TrafficFilter:
         Returns:
             bool: True if the IP is external, False otherwise
         """
-        return IPv4Address(ip) not in _PRIVATE_IP_RANGES.get(ip[:2], _BLACK_HOLE)
+        try:
+            address = IPv4Address(ip)
+        except ValueError:
+            # Not an IPv4 address (e.g. an IPv6 literal such as "::1"): deciding must
+            # never raise into the application, and such a destination is not routed
+            # through the Proxy.
+            return False
+
+        return address not in _PRIVATE_IP_RANGES.get(ip[:2], _BLACK_HOLE)
 
     def _is_external_domain(self, host: str) -> Optional[bool]:
         """Check whether an HOST is external or not
